@@ -123,6 +123,19 @@ record("AssignedFeatureCounter", {
 CLASS_HOME.update({"GeneAssignmentExtractor": "src/long_read_counter.py", "TranscriptAssignmentExtractor": "src/long_read_counter.py",
                    "AssignedFeatureCounter": "src/long_read_counter.py", "AbstractReadGrouper": "src/read_groups.py"})
 
+@spec("list[rec:IsoformMatchC], int -> int")
+def dgenes(M, n):
+    # number of distinct non-empty gene ids among the first n matches (a match counts when no earlier match names the same gene)
+    return 0 if n <= 0 else dgenes(M, n - 1) + (1 if (M[n - 1].assigned_gene is not None and len(M[n - 1].assigned_gene) > 0 and
+                                                      not any(M[i].assigned_gene == M[n - 1].assigned_gene for i in range(n - 1))) else 0)
+
+
+@spec("list[rec:IsoformMatchC], int -> int")
+def dtrans(M, n):
+    return 0 if n <= 0 else dtrans(M, n - 1) + (1 if (M[n - 1].assigned_transcript is not None and len(M[n - 1].assigned_transcript) > 0 and
+                                                      not any(M[i].assigned_transcript == M[n - 1].assigned_transcript for i in range(n - 1))) else 0)
+
+
 contract(L + "GeneAssignmentExtractor.get_features", {"read_assignment": "rec:ReadAssignmentC"}, returns="set[str]",
          props=["C02"], locals={"gene_set": "set[str]"},
          ensures=["all((s in result) == any(read_assignment.isoform_matches[j].assigned_gene == s for j in range(len(read_assignment.isoform_matches))) "
@@ -130,11 +143,13 @@ contract(L + "GeneAssignmentExtractor.get_features", {"read_assignment": "rec:Re
                   "all(read_assignment.isoform_matches[j].assigned_gene is None or len(read_assignment.isoform_matches[j].assigned_gene) == 0 "
                   "or read_assignment.isoform_matches[j].assigned_gene in result for j in range(len(read_assignment.isoform_matches)))",
                   "len(result) <= len(read_assignment.isoform_matches)",
-                  "len(result) >= 1 or not any(m.assigned_gene is not None and len(m.assigned_gene) > 0 for m in read_assignment.isoform_matches)"],
+                  "len(result) >= 1 or not any(m.assigned_gene is not None and len(m.assigned_gene) > 0 for m in read_assignment.isoform_matches)",
+                  # k of the 1/k rule: the number of DISTINCT genes named by the matches
+                  "len(result) == dgenes(read_assignment.isoform_matches, len(read_assignment.isoform_matches))"],
          loops={0: {"inv": ["all(any(read_assignment.isoform_matches[j].assigned_gene == s for j in range(_k0)) for s in gene_set)",
                             "all(read_assignment.isoform_matches[j].assigned_gene is None or len(read_assignment.isoform_matches[j].assigned_gene) == 0 "
                             "or read_assignment.isoform_matches[j].assigned_gene in gene_set for j in range(_k0))",
-                            "len(gene_set) <= _k0",
+                            "len(gene_set) <= _k0", "len(gene_set) == dgenes(read_assignment.isoform_matches, _k0)",
                             "len(gene_set) >= 1 or not any(read_assignment.isoform_matches[j].assigned_gene is not None and len(read_assignment.isoform_matches[j].assigned_gene) > 0 for j in range(_k0))"]}},
          native=False)
 contract(L + "TranscriptAssignmentExtractor.get_features", {"read_assignment": "rec:ReadAssignmentC"}, returns="set[str]",
@@ -144,11 +159,12 @@ contract(L + "TranscriptAssignmentExtractor.get_features", {"read_assignment": "
                   "all(read_assignment.isoform_matches[j].assigned_transcript is None or len(read_assignment.isoform_matches[j].assigned_transcript) == 0 "
                   "or read_assignment.isoform_matches[j].assigned_transcript in result for j in range(len(read_assignment.isoform_matches)))",
                   "len(result) <= len(read_assignment.isoform_matches)",
-                  "len(result) >= 1 or not any(m.assigned_transcript is not None and len(m.assigned_transcript) > 0 for m in read_assignment.isoform_matches)"],
+                  "len(result) >= 1 or not any(m.assigned_transcript is not None and len(m.assigned_transcript) > 0 for m in read_assignment.isoform_matches)",
+                  "len(result) == dtrans(read_assignment.isoform_matches, len(read_assignment.isoform_matches))"],
          loops={0: {"inv": ["all(any(read_assignment.isoform_matches[j].assigned_transcript == s for j in range(_k0)) for s in transcript_set)",
                             "all(read_assignment.isoform_matches[j].assigned_transcript is None or len(read_assignment.isoform_matches[j].assigned_transcript) == 0 "
                             "or read_assignment.isoform_matches[j].assigned_transcript in transcript_set for j in range(_k0))",
-                            "len(transcript_set) <= _k0",
+                            "len(transcript_set) <= _k0", "len(transcript_set) == dtrans(read_assignment.isoform_matches, _k0)",
                             "len(transcript_set) >= 1 or not any(read_assignment.isoform_matches[j].assigned_transcript is not None and len(read_assignment.isoform_matches[j].assigned_transcript) > 0 for j in range(_k0))"]}},
          native=False)
 contract(L + "GeneAssignmentExtractor.get_assignment_type", {"read_assignment": "rec:ReadAssignmentC"}, returns=RAT,
@@ -218,6 +234,7 @@ def _gen_ari(tag):
 def _ari(tag, extractor, type_field):
     T = "read_assignment.%s" % type_field
     FA = "assigned_gene" if tag == "gene" else "assigned_transcript"
+    DCNT = "dgenes" if tag == "gene" else "dtrans"
     contract(L + "AssignedFeatureCounter.add_read_info#" + tag,
              {"self": "rec:AssignedFeatureCounter", "read_assignment": "opt[rec:ReadAssignmentC]"}, returns="none",
              props=["C02", "C09"], bind={"AssignedFeatureCounter.assignment_extractor": "class:" + extractor},
@@ -257,11 +274,24 @@ def _ari(tag, extractor, type_field):
                  "cnt(self.feature_counter, m.%s, self.group_numeric_ids['NA' if self.ignore_read_groups else read_assignment.read_group]) == "
                  "cnt(old(self.feature_counter), m.%s, self.group_numeric_ids['NA' if self.ignore_read_groups else read_assignment.read_group]) + 1 "
                  "for m in read_assignment.isoform_matches)" % ((T, T) + (FA,) * 4),
+                 # the 1/k rule: an ambiguous read shared by k distinct features adds exactly 1/k to each of them (0 when the strategy
+                 # leaves ambiguous reads out), under its own group
+                 "read_assignment is None or self.reads_for_tpm == old(self.reads_for_tpm) or %s != ReadAssignmentType.ambiguous or "
+                 "all(m.%s is None or len(m.%s) == 0 or "
+                 "cnt(self.feature_counter, m.%s, self.group_numeric_ids['NA' if self.ignore_read_groups else read_assignment.read_group]) == "
+                 "cnt(old(self.feature_counter), m.%s, self.group_numeric_ids['NA' if self.ignore_read_groups else read_assignment.read_group]) + "
+                 "(1 if %s(read_assignment.isoform_matches, len(read_assignment.isoform_matches)) == 1 else "
+                 "(1 / %s(read_assignment.isoform_matches, len(read_assignment.isoform_matches)) if self.read_counter.strategy_flags.use_ambiguous else 0)) "
+                 "for m in read_assignment.isoform_matches)" % ((T,) + (FA,) * 4 + (DCNT, DCNT)),
              ],
              loops={k: {"inv": [
                  "all(f in self.feature_counter for f in old(self.feature_counter))",
                  "all(cnt(self.feature_counter, f, h) >= cnt(old(self.feature_counter), f, h) for f in old(self.feature_counter) for h in old(self.feature_counter)[f].data)",
-                 "count_value >= 0"]} for k in (0, 1)},
+                 "count_value >= 0",
+                 # the features already visited carry the weight, the others are untouched (the enumeration of the set has no repetition)
+                 "all(cnt(self.feature_counter, _seq%d[j], group_id) == cnt(old(self.feature_counter), _seq%d[j], group_id) + count_value for j in range(_k%d))" % (k, k, k),
+                 "all(cnt(self.feature_counter, _seq%d[j], group_id) == cnt(old(self.feature_counter), _seq%d[j], group_id) for j in range(_k%d, len(_seq%d)))" % (k, k, k, k)]}
+                    for k in (0, 1)},
              gen=_gen_ari(tag))
 
 
